@@ -27,6 +27,9 @@ var c09Plan = []planEntry{
 	{spaces.XHTML, 4, 5},
 	{spaces.XMlRef, 5, 6},
 	{spaces.XPhrase, 4, 5},
+	{spaces.XMl, 5, 6},
+	{spaces.XDefs, 5, 6},
+	{spaces.XRefHead.Without("  "), 5, 6},
 }
 
 var (
@@ -60,7 +63,7 @@ func splitLines(d []byte) [][]byte {
 func init() {
 	register(&Check{
 		ID:   "C09",
-		Rule: "every tab-free token sequence D up to the stated length over each declared alphabet: (a) every line prefixed with each of '> ', ' > ', '   > ' and, when no line starts with a space, '>'; (b) when D starts with a non-space character and has no whitespace-only line: first line prefixed with each of 7 list markers and N=1..4 spaces, other lines indented by W+N spaces (skipped when the reference recogniser says the new first line is a thematic break); compared on safe-mode HTML through ref.Norm (and modulo <p> tags for the one-item, hence tight, list) and on the reference map; non-trivial = D has >= 2 lines and contains a construct that spans lines or a container, heading or reference definition",
+		Rule: "every tab-free token sequence D up to the stated length over each declared alphabet: (a) every line prefixed with each of '> ', ' > ', '   > ' and, when no line starts with a space, '>'; (b) when D starts with a non-space character and has no whitespace-only line: first line prefixed with each of 7 list markers and N=1..4 spaces, other lines indented by W+N spaces (skipped when the reference recogniser says the new first line is a thematic break); compared on safe-mode HTML and on HTML with raw tags written out, through ref.Norm (and modulo <p> tags for the one-item, hence tight, list), and on the reference map; non-trivial = D has >= 2 lines and contains a construct that spans lines or a container, heading or reference definition",
 		Assumptions: []string{
 			"safe mode = IgnoreRaw, SoftBreakPreserve; in safe mode every <p> in the output is renderer-made, so dropping <p> and </p> on both sides is exact",
 			"lines are split on LF, CRLF and lone CR",
@@ -69,6 +72,43 @@ func init() {
 			c.forPlan(c09Plan, c09Driver)
 		},
 	})
+}
+
+// rawSignature lists, in document order, the text of every inline HTML tag and
+// of every HTML block as the tree holds it (line breaks as "\n", indent nodes as
+// spaces): what a renderer would copy out when raw HTML is enabled.
+func rawSignature(blocks []*cm.RootBlock) string {
+	var sb strings.Builder
+	for _, rb := range blocks {
+		tree.Visit(rb.AsNode(), func(n, _ cm.Node, _ int) {
+			isTag := n.Inline() != nil && n.Inline().Kind() == cm.HTMLTagKind
+			isBlock := n.Block() != nil && n.Block().Kind() == cm.HTMLBlockKind
+			if !isTag && !isBlock {
+				return
+			}
+			if isBlock {
+				sb.WriteString("[block:")
+			} else {
+				sb.WriteString("[tag:")
+			}
+			for i, k := 0, n.ChildCount(); i < k; i++ {
+				c := n.Child(i).Inline()
+				if c == nil {
+					continue
+				}
+				switch c.Kind() {
+				case cm.RawHTMLKind, cm.TextKind:
+					sb.WriteString(c.Text(rb.Source))
+				case cm.SoftLineBreakKind, cm.HardLineBreakKind:
+					sb.WriteString("\n")
+				case cm.IndentKind:
+					sb.WriteString(strings.Repeat(" ", c.IndentWidth()))
+				}
+			}
+			sb.WriteString("]")
+		})
+	}
+	return sb.String()
 }
 
 func dropP(s string) string {
@@ -82,6 +122,12 @@ func c09Driver(x *X, d []byte) {
 	lines := splitLines(d)
 	blocks, refs := cm.Parse(clone(d))
 	base := ref.Norm(renderCfg(blocks, refs, cm.SoftBreakPreserve, true))
+	// With raw HTML written out as well: inline tags and HTML blocks are contents
+	// like any other (a raw tag that spans lines must not pick up the prefix).
+	// (Normalised only after wrapping, so that an unterminated raw tag in D meets
+	// the same following bytes on both sides.)
+	baseRaw := renderCfg(blocks, refs, cm.SoftBreakPreserve, false)
+	baseSig := rawSignature(blocks)
 	baseRefs := tree.Dump(nil, refs, tree.Refs)
 	anyLineStartsWithSpace, anyBlankLine := false, false
 	for _, l := range lines {
@@ -113,6 +159,10 @@ func c09Driver(x *X, d []byte) {
 		want := "<blockquote>" + base + "</blockquote>"
 		if got != want {
 			x.Fail("quote-contents-differ", cfg, d, "D renders %q; prefixed document %q renders %q, want %q", base, q, got, want)
+			return
+		}
+		if gotRaw, wantRaw := ref.Norm(renderCfg(qb, qr, cm.SoftBreakPreserve, false)), ref.Norm("<blockquote>"+baseRaw+"</blockquote>"); gotRaw != wantRaw {
+			x.Fail("quote-contents-differ", cfg+",raw-html", d, "with raw HTML: D renders %q; prefixed document %q renders %q, want %q", baseRaw, q, gotRaw, wantRaw)
 			return
 		}
 		if r := tree.Dump(nil, qr, tree.Refs); r != baseRefs {
@@ -159,6 +209,10 @@ func c09Driver(x *X, d []byte) {
 				want := open + "<li>" + ref.Norm(dropP(base)) + "</li>" + closeTag
 				if got != want {
 					x.Fail("list-contents-differ", cfg, d, "D renders %q; indented document %q renders (without <p>) %q, want %q", base, li, got, want)
+					return
+				}
+				if gotSig := rawSignature(lb); gotSig != baseSig {
+					x.Fail("list-contents-differ", cfg+",raw-html", d, "raw HTML of D (tags and HTML blocks in order): %q; of the indented document %q: %q", baseSig, li, gotSig)
 					return
 				}
 				if r := tree.Dump(nil, lr, tree.Refs); r != baseRefs {
